@@ -2911,8 +2911,13 @@ static void struct_members(Token **rest, Token *tok, Type *ty) {
       mem->align = attr.align ? attr.align : mem->ty->align;
 
       if (consume(&tok, tok, ":")) {
+        Token *colon = tok;
         mem->is_bitfield = true;
         mem->bit_width = const_expr(&tok, tok);
+        if (!is_integer(mem->ty))
+          error_tok(colon, "bit-field has a non-integer type");
+        if (mem->bit_width < 0 || mem->bit_width > mem->ty->size * 8)
+          error_tok(colon, "bit-field width is out of range");
       }
 
       cur = cur->next = mem;
